@@ -82,7 +82,16 @@ def run_port(ops) -> dict:
 
         async def script():
             n = 0
-            for gap, burst, ln, conc in ops:
+            for op in ops:
+                if op[0] == "status":  # a retained / repeated status message of the MQTT gateway (it went offline, came back online)
+                    class St:
+                        topic = "RAMSES/GATEWAY/18:123456"
+                        payload = op[1].encode()
+
+                    tr._on_message(None, None, St())
+                    await asyncio.sleep(0)
+                    continue
+                gap, burst, ln, conc = op
                 if gap:
                     await asyncio.sleep(gap)
                 for _ in range(burst):
@@ -220,7 +229,16 @@ def run_mqtt(ops) -> dict:
 
         async def script():
             n = 0
-            for gap, burst, ln, conc in ops:
+            for op in ops:
+                if op[0] == "status":  # a retained / repeated status message of the MQTT gateway (it went offline, came back online)
+                    class St:
+                        topic = "RAMSES/GATEWAY/18:123456"
+                        payload = op[1].encode()
+
+                    tr._on_message(None, None, St())
+                    await asyncio.sleep(0)
+                    continue
+                gap, burst, ln, conc = op
                 if gap:
                     await asyncio.sleep(gap)
                 for _ in range(burst):
@@ -232,11 +250,12 @@ def run_mqtt(ops) -> dict:
                         await one(fr)
 
         main = loop.create_task(script())
-        loop.quiesce(loop.time() + sum(o[0] for o in ops) + 2000)
+        wr = [o for o in ops if o[0] != "status"]
+        loop.quiesce(loop.time() + sum(o[0] for o in wr) + 2000)
         import json
 
         pubs = [(t, json.loads(p)["msg"]) for t, _, p in tr.client.published]
-        return {"pubs": pubs, "calls": calls, "maxasleep": maxasleep[0], "sequential": not any(o[3] for o in ops), "arrivals": all(o[1] == 1 and o[0] > 0 for o in ops), "done": main.done() and all(t.done() for t in tasks), "loop_exc": [str(c.get("exception"))[:100] for c in loop.exc]}
+        return {"pubs": pubs, "calls": calls, "maxasleep": maxasleep[0], "sequential": not any(o[3] for o in wr), "arrivals": all(o[1] == 1 and o[0] > 0 for o in wr), "done": main.done() and all(t.done() for t in tasks), "loop_exc": [str(c.get("exception"))[:100] for c in loop.exc]}
     finally:
         _time.perf_counter = real_pc
         for t in asyncio.all_tasks(loop):
@@ -292,6 +311,11 @@ def sequences(quick: bool):
     # sustained streams far above the MQTT limit (over-budget writes must be dropped, and dropping must not earn credit)
     for period, count in ((0.01, 6000), (0.1, 3000), (0.5, 1200)):
         yield ("mqtt-only",) + tuple((period, 1, 8, True) for _ in range(count))  # independent arrivals
+    # the MQTT gateway's status flapping in mid-session (offline / online, repeated online) between two bursts: no fresh allowance
+    for flap in (("online",), ("offline", "online"), ("offline", "online", "online"), ("offline",)):
+        for conc in (False, True):
+            for gap in (0, 5):
+                yield ("mqtt-only", (0, 200, 8, conc)) + tuple(("status", x) for x in flap) + ((gap, 200, 8, conc),)
     # steady streams below / at / above the limit, then a burst (what depth-2 sequences of bursts cannot express)
     for period in (1.0, 2.0, 3.3, 4.0):
         for ln in (1, 8, 48):
@@ -310,7 +334,7 @@ def shard(arg) -> E.Tally:
             ops = ops[1:]
             m = run_mqtt(list(ops))
             t.n += 1
-            for key, what in judge_mqtt(f"sustained {ops[0]} x{len(ops)}", m):
+            for key, what in judge_mqtt(f"sustained {ops[0]} x{len(ops)}" if len(ops) > 8 else ops, m):
                 t.bad(key, what, {"ops": [list(o) for o in ops], "kind": "mqtt"})
             t.by["writes"] += len(m["pubs"])
             continue
